@@ -225,7 +225,7 @@ func runProperty(p *vc.Prog, id string, claims *PropClaim, known []KnownFinding,
 		}
 	}
 	// the fixed prelude (theory of byte strings, slices, interfaces) must be satisfiable on its own
-	pr := smt.Solve(smt.Prelude+"(check-sat)\n", dir, "prelude", 10, false)
+	pr := smt.Quick(smt.Prelude+"(check-sat)\n", dir, "prelude", 3)
 	out.preludeStatus = pr.Status
 	if pr.Status == "unsat" {
 		out.violations = append(out.violations, violation{Func: "prelude", Obl: "vacuity:prelude-consistent", Status: "VACUOUS", Output: pr.Output, Why: "the fixed SMT prelude is inconsistent: every proof would be vacuous"})
